@@ -689,6 +689,8 @@ enum Ctl {
     Async(autd3::r#async::Controller<ScriptLink>),
     /// the same controller after `into_boxed_link()`: every link call goes through `impl AsyncLink for Box<dyn AsyncLink>`
     AsyncBoxed(autd3::r#async::Controller<Box<dyn AsyncLink>>),
+    /// the sync controller after `into_boxed_link()` (tx/rx buffers, message ids and geometry must move over unchanged)
+    SyncBoxed(Controller<Box<dyn Link>>),
 }
 
 /// run `$s` on the sync controller or `$a` (inside `block_on` of runtime `$rt`) on the async one, plain or boxed
@@ -696,6 +698,7 @@ macro_rules! on_ctl {
     ($ctl:expr, $rt:expr, |$c:ident| sync $s:expr, async $a:expr) => {
         match $ctl {
             Ctl::Sync($c) => $s,
+            Ctl::SyncBoxed($c) => $s,
             Ctl::Async($c) => $rt.block_on(async { $a }),
             Ctl::AsyncBoxed($c) => $rt.block_on(async { $a }),
         }
@@ -808,7 +811,7 @@ impl Worker {
             leftover: l.leftover(),
             sleeps: self.sleeps.load(Ordering::SeqCst),
             mt: self.mt,
-            boxed: matches!(self.ctl, Some(Ctl::AsyncBoxed(_))),
+            boxed: matches!(self.ctl, Some(Ctl::AsyncBoxed(_)) | Some(Ctl::SyncBoxed(_))),
             drop_must_close: false,
         }
     }
@@ -833,6 +836,7 @@ impl Worker {
     fn enable_now(&self) -> Vec<bool> {
         match &self.ctl {
             Some(Ctl::Sync(c)) => c.geometry().iter().map(|d| d.enable).collect(),
+            Some(Ctl::SyncBoxed(c)) => c.geometry().iter().map(|d| d.enable).collect(),
             Some(Ctl::Async(c)) => c.geometry().iter().map(|d| d.enable).collect(),
             Some(Ctl::AsyncBoxed(c)) => c.geometry().iter().map(|d| d.enable).collect(),
             None => vec![true; self.n],
@@ -858,13 +862,14 @@ impl Worker {
                 self.link.lock().unwrap().reset_script(None);
                 match self.ctl.as_mut().unwrap() {
                     Ctl::Sync(c) => c.geometry_mut().iter_mut().zip(mask.iter()).for_each(|(d, b)| d.enable = *b),
+                    Ctl::SyncBoxed(c) => c.geometry_mut().iter_mut().zip(mask.iter()).for_each(|(d, b)| d.enable = *b),
                     Ctl::Async(c) => c.geometry_mut().iter_mut().zip(mask.iter()).for_each(|(d, b)| d.enable = *b),
                     Ctl::AsyncBoxed(c) => c.geometry_mut().iter_mut().zip(mask.iter()).for_each(|(d, b)| d.enable = *b),
                 }
                 let now = self.enable_now();
                 let mut l = self.link.lock().unwrap();
                 let result = format!("set {}", bits(&now));
-                Ran { answer: result.clone(), result, calls: vec![], en: l.enabled.clone(), compromised: false, why: "", overrun: false, leftover: { l.settle(); 0 }, sleeps: 0, mt: self.mt, boxed: matches!(self.ctl, Some(Ctl::AsyncBoxed(_))), drop_must_close: false }
+                Ran { answer: result.clone(), result, calls: vec![], en: l.enabled.clone(), compromised: false, why: "", overrun: false, leftover: { l.settle(); 0 }, sleeps: 0, mt: self.mt, boxed: matches!(self.ctl, Some(Ctl::AsyncBoxed(_)) | Some(Ctl::SyncBoxed(_))), drop_must_close: false }
             }
             Case::Open { n, t, open_ok, ff, cs, drop } => {
                 self.dispose();
@@ -896,7 +901,8 @@ impl Worker {
                     // same op line, same model: all further link calls go through the `Box<dyn AsyncLink>` forwarder
                     r.map(|c| if self.boxed { Ctl::AsyncBoxed(c.into_boxed_link()) } else { Ctl::Async(c) })
                 } else {
-                    Controller::open_with_option(devices(*n), link, opt).map(Ctl::Sync)
+                    // same op line, same model: the boxed controller must carry on with the same buffers and message ids
+                    Controller::open_with_option(devices(*n), link, opt).map(|c| if self.boxed { Ctl::SyncBoxed(c.into_boxed_link()) } else { Ctl::Sync(c) })
                 };
                 let res = match r {
                     Ok(c) => {
@@ -1027,9 +1033,14 @@ impl Worker {
                 let _ = drop_entries;
                 let en_before = self.enable_now();
                 let rt = if self.mt { self.rt_mt.as_ref().unwrap() } else { &self.rt };
-                let was_boxed = matches!(self.ctl, Some(Ctl::AsyncBoxed(_)));
+                let was_boxed = matches!(self.ctl, Some(Ctl::AsyncBoxed(_)) | Some(Ctl::SyncBoxed(_)));
                 let r = match self.ctl.take().unwrap() {
                     Ctl::Sync(c) => c.close(),
+                    Ctl::SyncBoxed(c) if self.tick % 4 < 2 => {
+                        let c = unsafe { Controller::<ScriptLink>::from_boxed_link(c) };
+                        c.close()
+                    }
+                    Ctl::SyncBoxed(c) => c.close(),
                     Ctl::Async(c) => rt.block_on(async { c.close().await }),
                     // every other time: back through `from_boxed_link` first
                     Ctl::AsyncBoxed(c) if self.tick % 4 < 2 => {
@@ -3452,7 +3463,7 @@ pub fn run(args: &Args, is_async: bool) {
                     }
                     // C11: every eighth chunk of `sender_async` runs with the link boxed after `open`
                     // (`into_boxed_link`): same op lines, same model, same lock-step comparison
-                    w.boxed = is_async && ci % 8 == 5;
+                    w.boxed = ci % 8 == 5;
                     let twin_cases: Option<&Vec<Case>> = if twin_w.is_some() { plan.twins[ci].as_ref() } else { None };
                     let mut emitted: Vec<Emitted> = vec![];
                     // the open line that started the current controller (re-issued after a discarded case)
